@@ -543,3 +543,20 @@ func walkStuck(sample []byte) int {
 
 // UseWalkStuck keeps the function reachable.
 func UseWalkStuck(b []byte) int { return walkStuck(b) }
+
+// L-RAWDEFAULT: the box is built from the raw value, the default comes too late.
+type cfgBox struct {
+	Config string
+}
+
+func describeWrong(config string) (*cfgBox, int) {
+	b := &cfgBox{}
+	b.Config = config
+	if config == "" {
+		config = "WEBVTT"
+	}
+	return b, len(config)
+}
+
+// UseDescribe keeps the function reachable.
+func UseDescribe(s string) (*cfgBox, int) { return describeWrong(s) }
